@@ -102,7 +102,16 @@ def native_cases():
 
     class Circle(Shape):
         radius: float
+
+    class Acc(pane.PaneBase):
+        user_id: int = pane.field(in_names=['uid'])           # written under the Python name, which is always read back
+        quota: float = 1.0
+
+    class Ev(pane.PaneBase, in_rename=('camel', 'kebab')):    # input styles only: the output stays the Python name
+        event_id: int
+        label_text: str = 'l'
     base = [
+        (Acc, Acc(7), 'in_names without the Python name'), (Ev, Ev(3), 'in_rename only'),
         (fractions.Fraction, fractions.Fraction(1, 3), 'Fraction'), (decimal.Decimal, decimal.Decimal('1.50'), 'Decimal'),
         (datetime.datetime, datetime.datetime(2020, 1, 2, 3, 4, 5), 'datetime'), (datetime.date, datetime.date(2020, 1, 2), 'date'),
         (datetime.time, datetime.time(3, 4, 5), 'time'), (pathlib.PurePosixPath, pathlib.PurePosixPath('a/b'), 'path'),
